@@ -16,7 +16,7 @@ RULE = (
     "frozen tables: attribute name per field, stripped text, ISO-8601 creation time, ignored "
     "fields absent, plus the reference-document link; equality of the complete root attrs dict "
     "read through open_alos2. Non-trivial: >= 1 file pointer record."
-    " Stage 'in-place-pairs': two volume directories at the same root, one after the other, both judged. Three cases in seven inject a transient I/O error (the 1st, 2nd or 3rd read of the volume directory file fails once with OSError): the open may fail with that OSError, but a tree that is returned - then, and by the next open - carries exactly the fields of the file. Half of the other cases judge the tree returned by an open that writes the image index cache, or a tree served from that cache."
+    " Stage 'in-place-pairs': two volume directories at the same root, one after the other, both judged. Three cases in seven inject a transient I/O error (the 1st, 2nd or 3rd read of the volume directory file fails once with OSError): the open may fail with that OSError, but a tree that is returned - then, and by the next open - carries exactly the fields of the file. Half of the other cases judge the tree returned by an open that writes the image index cache, or a tree served from that cache; half run under xarray's process-wide option keep_attrs=False / True."
 )
 ASSUMPTIONS = [
     "layout/volume_directory.json + layout/exposure_volume.json (frozen) are the reference",
@@ -44,6 +44,8 @@ def cases(draw):
         # judged tree: plain uncached open / returned by the open that writes the image index
         # cache / served from that cache (the root attributes come from the volume directory either way)
         "open_mode": draw(st.sampled_from(["plain", "plain", "creating", "cached"])),
+        # process-wide xarray option in force while the product is opened (None: xarray's default)
+        "xr_keep_attrs": draw(st.sampled_from([None, None, False, True])),
     }
 
 
@@ -54,7 +56,7 @@ def plan(tier):
 
 
 def classify(case):
-    return case["n_file_pointers"] >= 1, [f"pointers={min(case['n_file_pointers'], 3)}+" if case["n_file_pointers"] >= 3 else f"pointers={case['n_file_pointers']}", f"policy={case['policy']}", f"io_error={case.get('io_error')}", f"open_mode={case.get('open_mode', 'plain')}"]
+    return case["n_file_pointers"] >= 1, [f"pointers={min(case['n_file_pointers'], 3)}+" if case["n_file_pointers"] >= 3 else f"pointers={case['n_file_pointers']}", f"policy={case['policy']}", f"io_error={case.get('io_error')}", f"open_mode={case.get('open_mode', 'plain')}", f"xr_keep_attrs={case.get('xr_keep_attrs')}"]
 
 
 def run_case(case):
@@ -96,7 +98,12 @@ def run_case(case):
                     out.append(d)
         return out
     mode = case.get("open_mode", "plain")
-    with common.open_in_mode(files, info["names"]["sar_imagery"], mode) as (tree, err):
+    import contextlib
+
+    import xarray as xr
+
+    ambient = xr.set_options(keep_attrs=case["xr_keep_attrs"]) if case.get("xr_keep_attrs") is not None else contextlib.nullcontext()
+    with ambient, common.open_in_mode(files, info["names"]["sar_imagery"], mode) as (tree, err):
         if err is not None:
             return [harness.disc("exception", f"open_alos2 ({mode})", "a tree", harness.exc_text(err))]
         flat = {f"/@{k}": v for k, v in tree.attrs.items()}
